@@ -54,6 +54,16 @@ def skeleton_check() -> list[str]:
     loops = [n for n in fn.body if isinstance(n, ast.While)]
     if len(loops) != 1 or _unparse(loops[0].test) != "pos < len(content)":
         raise ExtractionError("tokenize: main loop `while pos < len(content)` not found")
+    # the text the loop scans is the caller's text after the fence-aware NFC pass and nothing else: `content` is bound
+    # exactly once before the loop and never inside it (no newline translation, stripping, case folding ...)
+    widx = fn.body.index(loops[0])
+    binds = [st for st in fn.body[:widx] for t in ast.walk(st) if isinstance(t, ast.Name) and t.id == "content" and isinstance(t.ctx, ast.Store)]
+    if [_unparse(b) for b in binds] != ["content, fence_spans = _normalize_with_fence_detection(content)"]:
+        raise ExtractionError("tokenize: before the main loop `content` is bound by " + str([f"L{b.lineno}: {_unparse(b)[:90]}" for b in binds]) + ", expected exactly `content, fence_spans = _normalize_with_fence_detection(content)`")
+    inner = [t for st in fn.body[widx:] for t in ast.walk(st) if isinstance(t, ast.Name) and t.id == "content" and isinstance(t.ctx, ast.Store)]
+    if inner:
+        raise ExtractionError(f"tokenize: `content` is re-bound on L{inner[0].lineno} inside / after the main loop")
+    facts.append("content is bound once: the fence-aware NFC pass of the argument")
     body = loops[0].body
     cp = [
         n
